@@ -2,14 +2,18 @@ package harness
 
 import (
 	"bufio"
+	"context"
 	"encoding/json"
+	"io"
 	"net"
 	"os"
+	"runtime"
 	"strconv"
 	"strings"
 	"sync"
 	"testing"
 	"testing/synctest"
+	"time"
 
 	"github.com/gammazero/nexus/v3/transport"
 	"github.com/gammazero/nexus/v3/transport/serialize"
@@ -33,12 +37,25 @@ type WireInput struct {
 	ID    int    `json:"id"`
 	N     int    `json:"n"`
 	Split bool   `json:"split"`
+	// op "race" (spec/WireConc.tla): Msgs messages of N octets are handed to the peer while Pings
+	// PINGs (payload length Len) are answered; Sched = the order in which the write calls of the
+	// two goroutines are granted ('s' sendHandler, 'r' recvHandler), as far as they are waiting
+	Msgs  int    `json:"msgs"`
+	Pings int    `json:"pings"`
+	Sched string `json:"sched"`
 }
 
 type WireScenario struct {
 	ID    string      `json:"id"`
 	Limit int         `json:"limit"`
 	Steps []WireInput `json:"steps"`
+	// Real: run in real time on a gated connection (write calls of the peer's goroutines are
+	// granted one at a time); without it: virtual time, quiescence by synctest.Wait
+	Real bool `json:"real"`
+	// Role "client": the nexus side connects (transport.ConnectRawSocketPeer, serializer Ser, receive
+	// limit Limit) to a listener of the harness, which plays the server octet by octet (always Real)
+	Role string `json:"role"`
+	Ser  int    `json:"ser"`
 }
 
 type WireFrame struct {
@@ -51,6 +68,8 @@ type WireEvent struct {
 	Ev        string      `json:"ev"`
 	Scn       string      `json:"scn"`
 	Limit     int         `json:"limit"`
+	Role      string      `json:"role"`
+	Ser       int         `json:"ser"`
 	In        WireInput   `json:"in"`
 	Reply     []any       `json:"reply"`
 	Frames    []WireFrame `json:"frames"`
@@ -59,7 +78,8 @@ type WireEvent struct {
 }
 
 type wireExec struct {
-	enc *json.Encoder
+	enc  *json.Encoder
+	real bool
 
 	mu        sync.Mutex
 	buf       []byte // octets the client has read and not yet parsed
@@ -67,6 +87,199 @@ type wireExec struct {
 	delivered []int
 	ser       serialize.Serializer
 	hsDone    bool
+	parsed    []WireFrame // frames parsed so far in this step (real-time scenarios)
+	rdClosed  bool        // the peer closed its Recv channel
+}
+
+// gatedConn is the connection handed to AcceptRawSocket in real-time scenarios: while the
+// gate is on, every Write call of the peer's send and receive goroutines waits until the
+// harness grants it (a scheduler for the writers of spec/WireConc.tla).
+type gatedConn struct {
+	net.Conn
+	mu      sync.Mutex
+	on      bool
+	waiting []*gatedWrite
+}
+
+type gatedWrite struct {
+	who  byte // 's' sendHandler, 'r' recvHandler
+	n    int
+	done chan struct{}
+}
+
+func writerRole() byte {
+	pc := make([]uintptr, 24)
+	n := runtime.Callers(3, pc)
+	fr := runtime.CallersFrames(pc[:n])
+	for {
+		f, more := fr.Next()
+		if strings.Contains(f.Function, "recvHandler") {
+			return 'r'
+		}
+		if strings.Contains(f.Function, "sendHandler") {
+			return 's'
+		}
+		if !more {
+			return '?'
+		}
+	}
+}
+
+func (g *gatedConn) Write(b []byte) (int, error) {
+	who := writerRole()
+	g.mu.Lock()
+	if !g.on || who == '?' {
+		g.mu.Unlock()
+		return g.Conn.Write(b)
+	}
+	w := &gatedWrite{who: who, n: len(b), done: make(chan struct{})}
+	g.waiting = append(g.waiting, w)
+	g.mu.Unlock()
+	<-w.done
+	return g.Conn.Write(b)
+}
+
+// grant lets one waiting write proceed: the one of the wanted writer if it waits, else any.
+func (g *gatedConn) grant(want byte) (byte, bool) {
+	g.mu.Lock()
+	defer g.mu.Unlock()
+	if len(g.waiting) == 0 {
+		return 0, false
+	}
+	k := 0
+	for i, w := range g.waiting {
+		if w.who == want {
+			k = i
+			break
+		}
+	}
+	w := g.waiting[k]
+	g.waiting = append(g.waiting[:k], g.waiting[k+1:]...)
+	close(w.done)
+	return w.who, true
+}
+
+func (g *gatedConn) nwaiting() int {
+	g.mu.Lock()
+	defer g.mu.Unlock()
+	return len(g.waiting)
+}
+
+func (g *gatedConn) open() {
+	g.mu.Lock()
+	g.on = false
+	for _, w := range g.waiting {
+		close(w.done)
+	}
+	g.waiting = nil
+	g.mu.Unlock()
+}
+
+// wait = quiescence: every goroutine of the bubble durably blocked (virtual time), or, in a
+// real-time scenario, until cond holds (at most a few seconds: only a faulty peer makes it wait)
+func (x *wireExec) wait(cond func() bool) {
+	if !x.real {
+		synctest.Wait()
+		return
+	}
+	deadline := time.Now().Add(4 * time.Second)
+	for !cond() && time.Now().Before(deadline) {
+		time.Sleep(time.Millisecond)
+	}
+}
+
+func (x *wireExec) nbuf() int {
+	x.mu.Lock()
+	defer x.mu.Unlock()
+	return len(x.buf)
+}
+
+func (x *wireExec) ndelivered() int {
+	x.mu.Lock()
+	defer x.mu.Unlock()
+	return len(x.delivered)
+}
+
+func (x *wireExec) sawEOF() bool {
+	x.mu.Lock()
+	defer x.mu.Unlock()
+	return x.eof
+}
+
+const (
+	markerID   = 900000 // request ids of marker messages (both directions)
+	markerPing = 0xEE   // tag of the marker PING's payload
+	markerLen  = 7
+)
+
+// syncMarkers ends a step of a real-time scenario: a marker message is handed to the peer, a
+// marker message and a marker PING are written to it; the connection is FIFO in both directions
+// and each goroutine of the peer works sequentially, so once all three came back everything the
+// step caused has been observed - or the connection has ended.
+func (x *wireExec) syncMarkers(cconn net.Conn, peer wamp.Peer, k int) {
+	if cconn == nil {
+		return
+	}
+	if peer == nil {
+		x.wait(x.sawEOF)
+		return
+	}
+	if !x.sawEOF() {
+		b := sized(x.ser, 60, markerID+k, true)
+		if m, err := x.ser.Deserialize(b); err == nil {
+			func() {
+				defer func() { _ = recover() }()
+				select {
+				case peer.Send() <- m:
+				case <-time.After(2 * time.Second):
+				}
+			}()
+		}
+		sub := sized(x.ser, 60, markerID+k, false)
+		_, _ = cconn.Write(append([]byte{0, 0, 0, byte(len(sub))}, sub...))
+		_, _ = cconn.Write(append([]byte{1, 0, 0, markerLen}, pingPayload(markerPing, markerLen)...))
+	}
+	x.wait(func() bool {
+		x.mu.Lock()
+		defer x.mu.Unlock()
+		if x.eof && x.rdClosed {
+			return true
+		}
+		x.parsed = append(x.parsed, x.frames()...)
+		gotPub, gotPong, gotSub := false, false, false
+		for _, f := range x.parsed {
+			if f.Type == 0 && f.ID == markerID+k {
+				gotPub = true
+			}
+			if f.Type == 2 && f.Len == markerLen && f.ID == markerPing {
+				gotPong = true
+			}
+		}
+		for _, d := range x.delivered {
+			if d == markerID+k {
+				gotSub = true
+			}
+		}
+		return gotPub && gotPong && gotSub
+	})
+}
+
+// withoutMarkers removes what syncMarkers added to the observations.
+func withoutMarkers(fr []WireFrame, del []int) ([]WireFrame, []int) {
+	f2 := []WireFrame{}
+	for _, f := range fr {
+		if (f.Type == 0 && f.ID >= markerID) || (f.Type == 2 && f.Len == markerLen && f.ID == markerPing) {
+			continue
+		}
+		f2 = append(f2, f)
+	}
+	d2 := []int{}
+	for _, d := range del {
+		if d < markerID {
+			d2 = append(d2, d)
+		}
+	}
+	return f2, d2
 }
 
 // sized builds a message whose encoding has exactly n octets (publish = router
@@ -122,6 +335,9 @@ func (x *wireExec) routerReader(p wamp.Peer) {
 		x.delivered = append(x.delivered, id)
 		x.mu.Unlock()
 	}
+	x.mu.Lock()
+	x.rdClosed = true
+	x.mu.Unlock()
 }
 
 // frames parses complete frames out of what the client has read.
@@ -174,18 +390,37 @@ func pingID(b []byte) int {
 }
 
 func (x *wireExec) run(sc *WireScenario) {
-	x.buf, x.eof, x.delivered, x.hsDone = nil, false, nil, false
-	cconn, sconn := net.Pipe()
+	x.buf, x.eof, x.delivered, x.hsDone, x.parsed, x.rdClosed = nil, false, nil, false, nil, false
+	x.real = sc.Real || sc.Role == "client"
 	type res struct {
 		p   wamp.Peer
 		err error
 	}
 	accepted := make(chan res, 1)
-	go func() {
-		p, err := transport.AcceptRawSocket(sconn, discardLog, sc.Limit, 16)
-		accepted <- res{p, err}
-	}()
-	go x.clientReader(cconn)
+	var cconn net.Conn // the harness end of the connection
+	var sconn net.Conn // the end handed to the peer (server role)
+	gate := &gatedConn{}
+	var ln net.Listener
+	if sc.Role == "client" {
+		var err error
+		if ln, err = net.Listen("tcp", "127.0.0.1:0"); err != nil {
+			panic(err)
+		}
+		defer ln.Close()
+	} else {
+		var pconn net.Conn
+		cconn, pconn = net.Pipe()
+		gate.Conn = pconn
+		sconn = pconn
+		if sc.Real {
+			sconn = gate
+		}
+		go func() {
+			p, err := transport.AcceptRawSocket(sconn, discardLog, sc.Limit, 16)
+			accepted <- res{p, err}
+		}()
+		go x.clientReader(cconn)
+	}
 	var peer wamp.Peer
 	emit := func(ev WireEvent) {
 		if ev.Reply == nil {
@@ -201,11 +436,57 @@ func (x *wireExec) run(sc *WireScenario) {
 			panic(err)
 		}
 	}
-	emit(WireEvent{Ev: "reset", Scn: sc.ID, Limit: sc.Limit})
+	emit(WireEvent{Ev: "reset", Scn: sc.ID, Limit: sc.Limit, Role: sc.Role, Ser: sc.Ser})
 	wasClosed := false
-	for _, in := range sc.Steps {
+	for k, in := range sc.Steps {
 		ev := WireEvent{Ev: "step", Scn: sc.ID, In: in}
 		switch in.Op {
+		case "chs":
+			// the nexus side connects; the harness is the server: it reads the four octets of the
+			// client and answers with magic / length nibble / serializer nibble (or hangs up)
+			x.ser = serializerFor(map[int]string{1: "json", 2: "msgpack", 3: "cbor"}[sc.Ser])
+			go func() {
+				ctx, cancel := context.WithTimeout(context.Background(), 10*time.Second)
+				defer cancel()
+				p, err := transport.ConnectRawSocketPeer(ctx, "tcp", ln.Addr().String(),
+					map[int]serialize.Serialization{1: serialize.JSON, 2: serialize.MSGPACK, 3: serialize.CBOR}[sc.Ser], nil, discardLog, sc.Limit)
+				accepted <- res{p, err}
+			}()
+			_ = ln.(*net.TCPListener).SetDeadline(time.Now().Add(5 * time.Second))
+			c, err := ln.Accept()
+			if err != nil {
+				panic("the connecting side never arrived: " + err.Error())
+			}
+			cconn = c
+			var hello [4]byte
+			_ = c.SetReadDeadline(time.Now().Add(5 * time.Second))
+			_, herr := io.ReadFull(c, hello[:])
+			_ = c.SetReadDeadline(time.Time{})
+			if in.Body == "eof" {
+				_ = c.Close()
+			} else {
+				b := []byte{0x7f, byte(in.Lenn<<4 | in.Sern), 0, 0}
+				if !in.Magic {
+					b[0] = 0x7e
+				}
+				_, _ = c.Write(b)
+			}
+			outcome := "error"
+			select {
+			case r := <-accepted:
+				if r.err == nil {
+					outcome = "ok"
+					peer = r.p
+					go x.routerReader(peer)
+				}
+			case <-time.After(5 * time.Second):
+				outcome = "hang"
+			}
+			if herr != nil || hello[0] != 0x7f || hello[2] != 0 || hello[3] != 0 {
+				outcome = "badhello"
+			}
+			ev.Reply = []any{outcome, int(hello[1] >> 4), int(hello[1] & 0xf)}
+			go x.clientReader(c)
 		case "hs":
 			b := []byte{0x7f, byte(in.Lenn<<4 | in.Sern), 0, 0}
 			if !in.Magic {
@@ -215,7 +496,14 @@ func (x *wireExec) run(sc *WireScenario) {
 				b[3] = 1
 			}
 			_, _ = cconn.Write(b)
-			synctest.Wait()
+			if x.real {
+				select {
+				case r := <-accepted:
+					accepted <- r
+				case <-time.After(4 * time.Second):
+				}
+			}
+			x.wait(func() bool { return x.nbuf() >= 4 || x.sawEOF() })
 			select {
 			case r := <-accepted:
 				if r.err == nil {
@@ -287,7 +575,9 @@ func (x *wireExec) run(sc *WireScenario) {
 				_, _ = cconn.Write(append(hdr, payload...))
 			}
 			if in.Body == "short" {
-				synctest.Wait()
+				if !x.real {
+					synctest.Wait()
+				}
 				_ = cconn.Close()
 			}
 		case "send":
@@ -306,19 +596,77 @@ func (x *wireExec) run(sc *WireScenario) {
 					}
 				}()
 			}
+		case "race":
+			if peer == nil || !x.real {
+				break
+			}
+			gate.mu.Lock()
+			gate.on = true
+			gate.mu.Unlock()
+			go func() {
+				for k := 0; k < in.Pings; k++ {
+					payload := pingPayload(in.ID+100+k, in.Len)
+					hdr := []byte{1, byte(in.Len >> 16), byte(in.Len >> 8), byte(in.Len)}
+					if _, err := cconn.Write(append(hdr, payload...)); err != nil {
+						return
+					}
+				}
+			}()
+			for k := 0; k < in.Msgs; k++ {
+				b := sized(x.ser, in.N, in.ID+k, true)
+				m, err := x.ser.Deserialize(b)
+				if err != nil {
+					panic(err)
+				}
+				peer.Send() <- m
+			}
+			// grant the write calls one at a time, in the order of the schedule as far as possible
+			pos, idle := 0, 0
+			for idle < 40 {
+				// (a writer that has not arrived at the gate yet gets a moment to do so)
+				settle := 0
+				for last := -1; settle < 5; {
+					n := gate.nwaiting()
+					if n == last {
+						settle++
+					} else {
+						settle, last = 0, n
+					}
+					time.Sleep(200 * time.Microsecond)
+				}
+				var want byte
+				if pos < len(in.Sched) {
+					want = in.Sched[pos]
+				}
+				if _, ok := gate.grant(want); ok {
+					pos++
+					idle = 0
+				} else {
+					idle++
+				}
+			}
+			gate.open()
 		case "eof":
-			_ = cconn.Close()
+			if cconn != nil {
+				_ = cconn.Close()
+			}
 		case "nop":
 		}
-		synctest.Wait()
+		if !x.real {
+			synctest.Wait()
+		} else if in.Op != "hs" {
+			x.syncMarkers(cconn, peer, k)
+		}
 		x.mu.Lock()
-		if in.Op != "hs" || len(ev.Reply) > 0 || true {
-			if x.ser != nil && (in.Op != "hs") {
-				ev.Frames = x.frames()
-			}
+		if x.ser != nil && in.Op != "hs" && in.Op != "chs" {
+			ev.Frames = append(x.parsed, x.frames()...)
+			x.parsed = nil
 		}
 		ev.Delivered = x.delivered
 		x.delivered = nil
+		if x.real {
+			ev.Frames, ev.Delivered = withoutMarkers(ev.Frames, ev.Delivered)
+		}
 		ev.Closed = x.eof && !wasClosed
 		if x.eof {
 			wasClosed = true
@@ -326,8 +674,13 @@ func (x *wireExec) run(sc *WireScenario) {
 		x.mu.Unlock()
 		emit(ev)
 	}
-	_ = cconn.Close()
-	synctest.Wait()
+	if cconn != nil {
+		_ = cconn.Close()
+	}
+	gate.open()
+	if cconn != nil {
+		x.wait(x.sawEOF)
+	}
 	if peer == nil {
 		select {
 		case r := <-accepted:
@@ -341,8 +694,10 @@ func (x *wireExec) run(sc *WireScenario) {
 			peer.Close()
 		}()
 	}
-	_ = sconn.Close()
-	synctest.Wait()
+	if sconn != nil {
+		_ = sconn.Close()
+	}
+	x.wait(func() bool { return true })
 }
 
 // TestWireExec runs the wire scenarios of $VERIF_SCN (same protocol as TestExec).
@@ -385,9 +740,13 @@ func TestWireExec(t *testing.T) {
 		w.Flush()
 		_ = os.WriteFile(outFile+".progress", []byte(strconv.Itoa(idx)+" "+s.ID+"\n"), 0o644)
 		stop := watchdog(s.ID)
-		synctest.Test(t, func(t *testing.T) {
+		if s.Real || s.Role == "client" {
 			x.run(&s)
-		})
+		} else {
+			synctest.Test(t, func(t *testing.T) {
+				x.run(&s)
+			})
+		}
 		close(stop)
 		w.Flush()
 	}
